@@ -94,11 +94,13 @@ class Program:
         self.module_imports = {}  # module -> {local name: ('module'|'name', target)}
         self.module_assigns = {}  # module -> {name: value expr}
         self.normalized = {}      # module -> what the load-time normaliser rewrote
+        self.renamed = {}         # new private name -> pinned qualname (N0)
         self._load()
 
     # ------------------------------------------------------------------ loading
     def _load(self):
         h = hashlib.sha256()
+        trees = {}
         for m in MODULES:
             p = os.path.join(self.root, "fxpmath", m + ".py")
             if m in self.overrides:
@@ -109,19 +111,26 @@ class Program:
                 except OSError as e:
                     raise AnalysisError("module missing: %s (%s)" % (p, e))
             try:
-                tree = ast.parse(text, filename=p)
+                trees[m] = ast.parse(text, filename=p)
             except SyntaxError as e:
                 raise AnalysisError("syntax error in %s: %s" % (p, e))
-            if os.environ.get("FXLINT_NO_NORMALIZE") != "1":
-                from .normalize import normalize_module
-                from .pinned import PINNED_FUNCS, PINNED_GLOBALS
-                tree, info = normalize_module(m, tree, PINNED_FUNCS, PINNED_GLOBALS)
-                self.normalized[m] = info
             self.sources[m] = text
-            self.modules[m] = tree
             h.update(m.encode() + b"\0" + text.encode() + b"\0")
-            self._index_module(m, tree)
         self.digest = h.hexdigest()
+        normalise = os.environ.get("FXLINT_NO_NORMALIZE") != "1"
+        if normalise:
+            from .normalize import normalize_module, undo_private_renames
+            from .pinned import PINNED_FUNCS, PINNED_GLOBALS, PINNED_PRIVATE_PARAMS, PINNED_PRIVATE_BODY
+            self.renamed = undo_private_renames(trees, PINNED_FUNCS, PINNED_PRIVATE_PARAMS, PINNED_PRIVATE_BODY)
+        for m in MODULES:
+            tree = trees[m]
+            if normalise:
+                tree, info = normalize_module(m, tree, PINNED_FUNCS, PINNED_GLOBALS)
+                if self.renamed:
+                    info["private_functions_renamed_back"] = dict(self.renamed)
+                self.normalized[m] = info
+            self.modules[m] = tree
+            self._index_module(m, tree)
 
     def _index_module(self, m, tree):
         imports = {}
